@@ -45,6 +45,16 @@ Proof.
       destruct (1 =? snd k') eqn:G; [|reflexivity]. apply N.eqb_eq in G. exfalso. apply Hne. destruct k'. cbn in *. now subst.
 Qed.
 
+(* a key about to be issued is not valid before the insertion *)
+Lemma insert_get_fresh f m k m' : SmInv m -> insert_with f m = Some (k, m') -> sm_get k m = None.
+Proof.
+  intros Hi H. pose proof Hi as ((c & Hc & Hnd) & Hok & Hb). destruct (sm_get k m) as [v|] eqn:E; [|reflexivity]. exfalso.
+  destruct (sm_get_some_inv _ _ _ E) as (s & Hs & Hgen & Hv). unfold insert_with in H.
+  destruct (sget (slots m) (next_free m)) as [s0|] eqn:Es0.
+  - inversion H; subst; clear H. cbn [fst snd] in Hs, Hgen. rewrite Es0 in Hs. inversion Hs; subst. lia.
+  - destruct (N.of_nat (length (slots m)) =? U32MAX); [discriminate|]. inversion H; subst; clear H. cbn [fst] in Hs. apply sget_lt in Hs. lia.
+Qed.
+
 Lemma remove_get_self k m v m' : sm_remove k m = Some (v, m') -> sm_get k m = Some v.
 Proof.
   unfold sm_remove, sm_get. destruct (sget (slots m) (fst k)) as [s|]; [|discriminate].
